@@ -34,6 +34,11 @@ VerifyCells ==
   { [op |-> "ToolVerify", key |-> KOct, alg |-> NONE, good |-> g, bad |-> b, mode |-> m, order |-> o, out |-> "q"] :
       g \in Goods, b \in (IF Quick THEN Bads ELSE {0, 1, 2, 3, 254, 255, 256, 257, 258, 511, 512, 513, 520} \cup {x \in 0..520 : x % 7 = 0}),
       m \in {"argv", "stdin", "stdin-nonl"}, o \in {"gb", "alt"} } \ { c \in { [op |-> "ToolVerify", key |-> KOct, alg |-> NONE, good |-> 0, bad |-> 0, mode |-> m, order |-> o, out |-> "q"] : m \in {"argv", "stdin", "stdin-nonl"}, o \in {"gb", "alt"} } : TRUE }
+\* failing lines that BEGIN with a good token: the token followed by white space and more text (a line is a token, not
+\* its first word), by a second token, by a CR
+TailCells ==
+  { [op |-> "ToolVerify", key |-> KOct, alg |-> NONE, good |-> g, bad |-> b, mode |-> m, order |-> o, out |-> "q", badkind |-> bk] :
+      g \in {0, 2}, b \in {1, 3}, m \in {"argv", "stdin", "stdin-nonl"}, o \in {"gb", "alt"}, bk \in {"space", "tab", "cr", "two", "lead"} }
 RtKeys == { <<OctKey(32, "a", NONE, NONE), "HS256">>, <<OctKey(64, "a", "HS512", NONE), NONE>>,
             <<AsymKey("rsa2048a", 1, NONE, NONE), "RS256">>, <<AsymKey("rsa2048a", 1, "PS256", NONE), NONE>>,
             <<AsymKey("p256a", 1, NONE, NONE), "ES256">>, <<AsymKey("p384a", 1, "ES384", NONE), NONE>>,
@@ -60,7 +65,7 @@ MultiCells ==
   { [op |-> "ToolKeyConvMulti", keys |-> [i \in 1..4 |-> MK[p[i]]]] : p \in Perms4 }
   \cup { [op |-> "ToolKeyConvMulti", keys |-> <<MK[a], MK[b]>>] : a \in 1..4, b \in 1..4 }
   \cup { [op |-> "ToolKeyConvMulti", keys |-> <<OctKey(32, "a", NONE, NONE), OctKey(64, "b", NONE, NONE), AsymKey("p384a", 1, NONE, NONE), OctKey(100, "a", NONE, NONE)>>] }
-Cells == VerifyCells \cup OutCells \cup RoundTripCells \cup KeyConvCells \cup MultiCells
+Cells == VerifyCells \cup TailCells \cup OutCells \cup RoundTripCells \cup KeyConvCells \cup MultiCells
 
 Emit == (pos = 1 /\ status = Running /\ vtoks = ListOf(0, 0, "gb")) =>
           \A c \in Cells : PrintT(<<"SCRIPT", ToJson(<<c>>)>>)
